@@ -199,6 +199,8 @@ def check_messages(tasks_msgs, orders, subsets, perm_limit, subset_limit):
             except Exception as e:
                 raise Violation("parser-raised", "Parser.add raised %r on order %r at message %r" % (e, list(perm), m))
             last = seen[u] == size[u]
+            stale = [t for t in completed if not hasattr(t, "root")]
+            require(not stale, "foreign-entry-returned", lambda: "order %r: add() returned %r among the completed tasks (what an earlier caller put into the list it was given)" % (list(perm), stale[:2]))
             got = [t.root().task_uuid if hasattr(t.root(), "task_uuid") else None for t in completed]
             if last:
                 require(
@@ -233,6 +235,7 @@ def check_messages(tasks_msgs, orders, subsets, perm_limit, subset_limit):
             yielded = []
             try:
                 for t in Parser.parse_stream(live()):
+                    require(hasattr(t, "root"), "foreign-entry-returned", lambda: "parse_stream yielded %r (something an earlier caller of Parser.add put into the list it was given)" % (t,))
                     u = t.root().task_uuid
                     yielded.append(u)
                     require(t.is_complete(), "stream-incomplete", lambda: "parse_stream yielded %s incomplete although all its messages are in the stream" % u)
